@@ -550,20 +550,82 @@ func ToV3SchemaRef(schema *openapi2.SchemaRef) *openapi3.SchemaRef {
 func toV3AdditionalProperties(from openapi3.AdditionalProperties) openapi3.AdditionalProperties {
 	return openapi3.AdditionalProperties{
 		Has:    from.Has,
-		Schema: convertRefsInV3SchemaRef(from.Schema),
+		Schema: convertNestedV3SchemaRef(from.Schema, ToV3Ref, xNullableToNullable),
 	}
 }
 
-func convertRefsInV3SchemaRef(from *openapi3.SchemaRef) *openapi3.SchemaRef {
+func fromV3AdditionalProperties(from openapi3.AdditionalProperties) openapi3.AdditionalProperties {
+	return openapi3.AdditionalProperties{
+		Has:    from.Has,
+		Schema: convertNestedV3SchemaRef(from.Schema, FromV3Ref, nullableToXNullable),
+	}
+}
+
+func xNullableToNullable(schema *openapi3.Schema) {
+	if nullable, ok := schema.Extensions["x-nullable"].(bool); ok {
+		schema.Nullable = nullable
+		schema.Extensions = extensionsWith(schema.Extensions, "x-nullable", nil)
+	}
+}
+
+func nullableToXNullable(schema *openapi3.Schema) {
+	if schema.Nullable {
+		schema.Nullable = false
+		schema.Extensions = extensionsWith(schema.Extensions, "x-nullable", true)
+	}
+}
+
+// extensionsWith returns a copy of extensions in which name is set to value, or removed when value is nil.
+func extensionsWith(extensions map[string]any, name string, value any) map[string]any {
+	result := make(map[string]any, len(extensions)+1)
+	for k, v := range extensions {
+		result[k] = v
+	}
+	if value == nil {
+		delete(result, name)
+	} else {
+		result[name] = value
+	}
+	return result
+}
+
+// convertNestedV3SchemaRef returns a copy of a schema in which every reference, at any depth, went through convertRef
+// and every schema through convertSchema.
+func convertNestedV3SchemaRef(from *openapi3.SchemaRef, convertRef func(string) string, convertSchema func(*openapi3.Schema)) *openapi3.SchemaRef {
 	if from == nil {
 		return nil
 	}
 	to := *from
-	to.Ref = ToV3Ref(to.Ref)
+	if to.Ref != "" {
+		// the referenced schema is converted where it is defined
+		to.Ref = convertRef(to.Ref)
+		return &to
+	}
 	if to.Value != nil {
 		v := *from.Value
 		to.Value = &v
-		to.Value.AdditionalProperties = toV3AdditionalProperties(to.Value.AdditionalProperties)
+		convertSchema(&v)
+		v.Items = convertNestedV3SchemaRef(v.Items, convertRef, convertSchema)
+		v.Not = convertNestedV3SchemaRef(v.Not, convertRef, convertSchema)
+		if v.Properties != nil {
+			v.Properties = make(openapi3.Schemas, len(from.Value.Properties))
+			for name, property := range from.Value.Properties {
+				v.Properties[name] = convertNestedV3SchemaRef(property, convertRef, convertSchema)
+			}
+		}
+		for _, xOf := range []*openapi3.SchemaRefs{&v.AllOf, &v.AnyOf, &v.OneOf} {
+			if *xOf != nil {
+				converted := make(openapi3.SchemaRefs, len(*xOf))
+				for i, member := range *xOf {
+					converted[i] = convertNestedV3SchemaRef(member, convertRef, convertSchema)
+				}
+				*xOf = converted
+			}
+		}
+		v.AdditionalProperties = openapi3.AdditionalProperties{
+			Has:    v.AdditionalProperties.Has,
+			Schema: convertNestedV3SchemaRef(v.AdditionalProperties.Schema, convertRef, convertSchema),
+		}
 	}
 	return &to
 }
@@ -963,7 +1025,7 @@ func FromV3SchemaRef(schema *openapi3.SchemaRef, components *openapi3.Components
 		MaxProps:             schema.Value.MaxProps,
 		Properties:           make(openapi2.Schemas),
 		AllOf:                make(openapi2.SchemaRefs, len(schema.Value.AllOf)),
-		AdditionalProperties: schema.Value.AdditionalProperties,
+		AdditionalProperties: fromV3AdditionalProperties(schema.Value.AdditionalProperties),
 	}
 
 	if v := schema.Value.Discriminator; v != nil {
